@@ -36,3 +36,13 @@ class MathCeil:
 class GetProcessStateDescription:
     returns = 'str'
     params = ['code']
+
+
+@external('supervisor.rpcinterface.SupervisorNamespaceRPCInterface._interpretProcessInfo')
+class InterpretProcessInfo:
+    """reads state, start, stop, now, pid, spawnerr, name of the info dict; returns the description string"""
+    returns = 'str'
+    params = ['rpc_self', 'info']
+
+    def pre_keys(info):
+        return ('state' in info and 'start' in info and 'stop' in info and 'now' in info and 'spawnerr' in info)
